@@ -87,6 +87,9 @@ def gen_cases(ctx, n, prop):
              "script": [list(x) for x in r.choice(SCRIPTS)], "watchdog_s": 25}
         if r.random() < 0.4:
             c["sleep_us"] = [[r.randrange(nch), r.choice([50, 300])]]
+        if prop in ("C10", "C11", "C12") and r.random() < 0.6:
+            # the model draws its starting points from the random stream handed to init_position
+            c["random_init"] = True
         if prop in ("C11", "C10") and r.random() < 0.25:
             # controller commands in quick succession while the chains spend most of their time
             # inside record_sample (holding their trace mutex)
@@ -143,6 +146,11 @@ def gen_cases(ctx, n, prop):
             c["script"] = [["park", pt, ch, 0 if pt == "try_recv" else r.randint(0, 3)], ["wait_parked"], ["pause"], ["release"],
                            ["sleep_ms", 30], ["progress"], ["sleep_ms", 20], ["progress"], ["resume"], ["wait_until_done"]]
             c["park"] = [pt, ch]
+            if r.random() < 0.5:
+                # repeated pause while the chains are already blocked, then a late resume
+                c["script"] = [["park", pt, ch, 0 if pt == "try_recv" else r.randint(0, 3)], ["wait_parked"], ["pause"], ["release"],
+                               ["sleep_ms", 20], ["pause"], ["sleep_ms", 30], ["progress"], ["pause"], ["sleep_ms", 30], ["progress"],
+                               ["resume"], ["wait_until_done"]]
         cases.append(c)
     return cases
 
